@@ -748,9 +748,38 @@ def main():
     return {"holds": 0, "violated": 1, "inconclusive": 2}[verdict]
 
 
+def fallback(reason):
+    """The translator could not encode the (changed) function, so the solver decides nothing.  The native
+    confirmation stage is still run: if the REAL function breaks the clause on one of the stress frames, that is a
+    real, replayable violation and is reported as such (flagged as found outside the solver); otherwise exit 2."""
+    out_json = sys.argv[sys.argv.index("--json") + 1] if "--json" in sys.argv else None
+    res = {"verdict": "inconclusive", "why": reason}
+    rc = 2
+    try:
+        frames = stress_frames()
+        wit = [(f, nat) for f, nat in zip(frames, native_counts(frames)) if is_witness(f, nat)]
+    except GiveUp as e2:
+        wit = []
+        res["why"] += "; native stage: " + str(e2)
+    if wit:
+        os.makedirs(os.path.join(VERIF, "replays"), exist_ok=True)
+        replay = os.path.join(VERIF, "replays", "C15-smt-%s.txt" % FN)
+        with open(replay, "w") as f:
+            f.write("# C15: real %s violates 'at most 1000 range-expanded entries plus one per 4 bytes, no panic'\n" % FN)
+            f.write("# found by the NATIVE confirmation stage on its stress frames; the MIR->SMT translator gave up on this tree (%s), so no VC was decided\n" % reason.replace("\n", " "))
+            for fr, nat in wit:
+                f.write("frame_hex=%s real_result=%s bound=%d\n" % (fr.hex()[:4000], nat, CAP + len(fr) // 4))
+        res = {"verdict": "violated", "obligations": 0, "paths": 0, "solver_s": 0.0, "failed": ["native stress frame breaks the clause (translator gave up: %s)" % reason[:200]],
+               "replay": replay, "mir_blocks": 0, "translator_validated_on_frames": 0, "decided_by": "native confirmation stage, not the solver"}
+        rc = 1
+    if out_json:
+        json.dump(res, open(out_json, "w"), indent=1)
+    print(json.dumps(res))
+    return rc
+
+
 if __name__ == "__main__":
     try:
         sys.exit(main())
     except GiveUp as e:
-        print(json.dumps({"verdict": "inconclusive", "why": str(e)}))
-        sys.exit(2)
+        sys.exit(fallback(str(e)))
